@@ -34,6 +34,12 @@
    protocol.resume_reading() re-entrantly, which may refill the buffer the same read is
    still draining (ret = "read").
 
+   Abstractions: the reader's second water mark (number of buffered HTTP chunk ends,
+   max(4, limit // 16)) is not modelled - it only adds pause requests at chunk ends, which
+   the size water mark produces as well; eof_received and connection_lost are one step
+   (NetEofDeliver); one HTTP chunk = one input unit; "zstd" stands for any decoder whose
+   data_available does not ask for one more empty call after a non-empty result.
+
    Design switches (TRUE = the design that satisfies the property).  The two marked
    "as coded: FALSE" are the deviations of the code as found; they are taken by the
    separate actions Dev_StalePauseKept and Dev_EofDropsParser:
